@@ -1,0 +1,94 @@
+//go:build verif
+
+// Contracts for govc (the /verif contract verifier). Comment-only: with the build tag off this file is not
+// compiled, with it on it adds no code.
+package octosql
+
+// Value invariant (what the constructors and the datasources establish): a concrete TypeID, Boolean only set on
+// Boolean values, and — recursively — valid elements. validV is a recursive predicate over finite value trees.
+//@ spec rec validV(v Value) bool = 0 <= v.TypeID && v.TypeID <= 9 && (v.TypeID != 3 ==> !v.Boolean) && forall(j, 0, len(v.List), validV(v.List[j])) && forall(j, 0, len(v.Struct), validV(v.Struct[j])) && forall(j, 0, len(v.Tuple), validV(v.Tuple[j]))
+
+// cmp is "the function Value.Compare computes" (Compare is pure and deterministic); hsh likewise for Value.hash.
+//@ spec cmp(a Value, b Value) int
+//@ spec hsh(v Value, h uint64) uint64
+
+// C09: Compare is total on valid values (no panic), returns -1, 0 or 1, and is lexicographic on containers.
+//@ func Value.Compare
+//@   requires validV(value) && validV(other)
+//@   pure
+//@   defines result == cmp(value, other)
+//@   ensures range: result == -1 || result == 0 || result == 1
+//@   loop 1 invariant list: 0 <= i && i <= maxLen && forall(j, 0, i, j < len(value.List) && j < len(other.List) && cmp(value.List[j], other.List[j]) == 0)
+//@   loop 2 invariant struct: 0 <= i && i <= maxLen && forall(j, 0, i, j < len(value.Struct) && j < len(other.Struct) && cmp(value.Struct[j], other.Struct[j]) == 0)
+//@   loop 3 invariant tuple: 0 <= i && i <= maxLen && forall(j, 0, i, j < len(value.Tuple) && j < len(other.Tuple) && cmp(value.Tuple[j], other.Tuple[j]) == 0)
+
+// C09/C11: SQL equality on non-NULL values is Compare == 0; NULL is never Equal to anything, itself included.
+//@ func Value.Equal
+//@   requires validV(value) && validV(other)
+//@   pure
+//@   ensures eq: result == (cmp(value, other) == 0 && !(value.TypeID == 0 && other.TypeID == 0))
+
+// C09: Compare is a total preorder whose equivalence is compatible with the order — for all valid values, of any
+// nesting depth. One obligation per law and per TypeID of the first operand. Proof: the real Compare is expanded from
+// its SSA for the operand pairs of the law; container arms use the loop contract above (lexicographic in cmp of the
+// elements) and the induction hypothesis on the elements at the loop-exit indices of those expansions.
+//@ lemma cmpRefl(a Value)
+//@   requires validV(a)
+//@   case Null: a.TypeID == 0
+//@   case Int: a.TypeID == 1
+//@   case Float: a.TypeID == 2
+//@   case Boolean: a.TypeID == 3
+//@   case String: a.TypeID == 4
+//@   case Time: a.TypeID == 5
+//@   case Duration: a.TypeID == 6
+//@   case List: a.TypeID == 7
+//@   case Struct: a.TypeID == 8
+//@   case Tuple: a.TypeID == 9
+//@   ensures reflexive: a.Compare(a) == 0
+//@   use List: cmpRefl(a.List[exit(a.Compare(a), "i", 1)])
+//@   use Struct: cmpRefl(a.Struct[exit(a.Compare(a), "i", 2)])
+//@   use Tuple: cmpRefl(a.Tuple[exit(a.Compare(a), "i", 3)])
+
+//@ lemma cmpAnti(a Value, b Value)
+//@   requires validV(a) && validV(b)
+//@   case Null: a.TypeID == 0
+//@   case Int: a.TypeID == 1
+//@   case Float: a.TypeID == 2
+//@   case Boolean: a.TypeID == 3
+//@   case String: a.TypeID == 4
+//@   case Time: a.TypeID == 5
+//@   case Duration: a.TypeID == 6
+//@   case List: a.TypeID == 7
+//@   case Struct: a.TypeID == 8
+//@   case Tuple: a.TypeID == 9
+//@   ensures range: a.Compare(b) == -1 || a.Compare(b) == 0 || a.Compare(b) == 1
+//@   ensures antisymmetric: a.Compare(b) == 0 - b.Compare(a)
+//@   use List: cmpAnti(a.List[exit(a.Compare(b), "i", 1)], b.List[exit(a.Compare(b), "i", 1)])
+//@   use List: cmpAnti(a.List[exit(b.Compare(a), "i", 1)], b.List[exit(b.Compare(a), "i", 1)])
+//@   use Struct: cmpAnti(a.Struct[exit(a.Compare(b), "i", 2)], b.Struct[exit(a.Compare(b), "i", 2)])
+//@   use Struct: cmpAnti(a.Struct[exit(b.Compare(a), "i", 2)], b.Struct[exit(b.Compare(a), "i", 2)])
+//@   use Tuple: cmpAnti(a.Tuple[exit(a.Compare(b), "i", 3)], b.Tuple[exit(a.Compare(b), "i", 3)])
+//@   use Tuple: cmpAnti(a.Tuple[exit(b.Compare(a), "i", 3)], b.Tuple[exit(b.Compare(a), "i", 3)])
+
+//@ lemma cmpTrans(a Value, b Value, c Value)
+//@   requires validV(a) && validV(b) && validV(c)
+//@   case Null: a.TypeID == 0
+//@   case Int: a.TypeID == 1
+//@   case Float: a.TypeID == 2
+//@   case Boolean: a.TypeID == 3
+//@   case String: a.TypeID == 4
+//@   case Time: a.TypeID == 5
+//@   case Duration: a.TypeID == 6
+//@   case List: a.TypeID == 7
+//@   case Struct: a.TypeID == 8
+//@   case Tuple: a.TypeID == 9
+//@   ensures transitive: a.Compare(b) <= 0 && b.Compare(c) <= 0 ==> a.Compare(c) <= 0 && (a.Compare(c) == 0 ==> a.Compare(b) == 0 && b.Compare(c) == 0)
+//@   use List: cmpTrans(a.List[exit(a.Compare(b), "i", 1)], b.List[exit(a.Compare(b), "i", 1)], c.List[exit(a.Compare(b), "i", 1)])
+//@   use List: cmpTrans(a.List[exit(b.Compare(c), "i", 1)], b.List[exit(b.Compare(c), "i", 1)], c.List[exit(b.Compare(c), "i", 1)])
+//@   use List: cmpTrans(a.List[exit(a.Compare(c), "i", 1)], b.List[exit(a.Compare(c), "i", 1)], c.List[exit(a.Compare(c), "i", 1)])
+//@   use Struct: cmpTrans(a.Struct[exit(a.Compare(b), "i", 2)], b.Struct[exit(a.Compare(b), "i", 2)], c.Struct[exit(a.Compare(b), "i", 2)])
+//@   use Struct: cmpTrans(a.Struct[exit(b.Compare(c), "i", 2)], b.Struct[exit(b.Compare(c), "i", 2)], c.Struct[exit(b.Compare(c), "i", 2)])
+//@   use Struct: cmpTrans(a.Struct[exit(a.Compare(c), "i", 2)], b.Struct[exit(a.Compare(c), "i", 2)], c.Struct[exit(a.Compare(c), "i", 2)])
+//@   use Tuple: cmpTrans(a.Tuple[exit(a.Compare(b), "i", 3)], b.Tuple[exit(a.Compare(b), "i", 3)], c.Tuple[exit(a.Compare(b), "i", 3)])
+//@   use Tuple: cmpTrans(a.Tuple[exit(b.Compare(c), "i", 3)], b.Tuple[exit(b.Compare(c), "i", 3)], c.Tuple[exit(b.Compare(c), "i", 3)])
+//@   use Tuple: cmpTrans(a.Tuple[exit(a.Compare(c), "i", 3)], b.Tuple[exit(a.Compare(c), "i", 3)], c.Tuple[exit(a.Compare(c), "i", 3)])
